@@ -19,7 +19,7 @@ CLAIMS = {
             "impl (forwarders incl. the type-erased bridge, Option, Empty, And, Or, Wrap, FromFilter, FirstDefined, "
             "Runtime, macro entry points) as exactly-once / truth-table / short-circuit rules; leaf emitters bypass "
             "filter, clock and ctxt. The conclusion for all combinator trees follows by structural induction (paper "
-            "step). Does not decide what user-supplied leaf filters/emitters do. Round 2: the proc-macro side of the emit hooks is read off emit_macros' quote! templates (argument count and like-named variable/parameter agreement at the macro/runtime boundary). Thorough tier repeats the rules on the no_std and alloc-only builds.",
+            "step). Does not decide what user-supplied leaf filters/emitters do. Round 2: the proc-macro side of the emit hooks is read off emit_macros' quote! templates (argument count and like-named variable/parameter agreement at the macro/runtime boundary). Thorough tier repeats the rules on the no_std and alloc-only builds. Round 4: a macro call without `when` passes the empty filter (read off the quote stream).",
             "custom MIR dataflow/path rules (rustc_private fact extractor + provenance, path counting, truth tables)",
             "3/C01"),
     "C02": ("Decides on built MIR for every impl of Props in the workspace (24 for_each bodies, enumerated from the "
@@ -29,7 +29,7 @@ CLAIMS = {
             "the default get keeps the first match and stops; is_unique is true only for stores that cannot hold a "
             "key twice, forwarders forward, And/arrays/slices/Option inherit false; Dedup is first-wins with its fast "
             "path under is_unique(); erased bridge forwards once; views enumerate their own keys before inner props. "
-            "Lookup==first-enumerated then follows per impl; not decided: user Props impls, hash-map iteration order. Round 2: a lookup override the table does not know is decided as a keyed view (no key enumeration never yields, no key returned under weaker conditions than it is enumerated, every enumerated key answered); the macro-built collection's selector skips None entries like enumeration does.",
+            "Lookup==first-enumerated then follows per impl; not decided: user Props impls, hash-map iteration order. Round 2: a lookup override the table does not know is decided as a keyed view (no key enumeration never yields, no key returned under weaker conditions than it is enumerated, every enumerated key answered); the macro-built collection's selector skips None entries like enumeration does. Round 4: Props::pull is get(key) followed by the typed cast only.",
             "custom MIR dataflow rules (visitor/ControlFlow discipline, override coherence table, forwarding)",
             "3/C02"),
     "C05": ("Decides the typestate of SpanGuard{state,data,completion} on built MIR: Completion::complete is called "
@@ -54,7 +54,7 @@ CLAIMS = {
             "shared id; storage is thread_local!; root frames do not read current state, pushed frames are a "
             "copy-on-write snapshot overlaid with HashMap::insert, disabled = open_push(Empty); frames are Arc "
             "snapshots without interior mutability; 30 forwarding/erased Ctxt methods forward once. Not decided: "
-            "that user code exits in stack order; cross-task schedules beyond the per-poll bracket.",
+            "that user code exits in stack order; cross-task schedules beyond the per-poll bracket. Round 4: ThreadLocalCtxt::default() is new() (a fresh id).",
             "custom MIR rules: guard liveness across calls incl. unwind edges, who-may-call, provenance of map keys, "
             "constant evaluation of the id counter",
             "3/C03"),
@@ -67,7 +67,7 @@ CLAIMS = {
             "stores the child; push_ctxt pushes ids only on the enabled edge and opens a disabled frame otherwise; "
             "the begin-span hook passes rt.ctxt()/clock()/rng(), completion hooks emit with the runtime's ctxt; the "
             "typed TraceId/SpanId fast path of the thread-local buffer; the RAII frame bracket incl. unwind (ids "
-            "revert when a span ends). Not decided: id distinctness (rng), schedules beyond the per-poll bracket. Round 2: every wrapper and the type-erased Ctxt bridge forward open_disabled/open_push/... to the same-named method; an id's text is read by the hex decoder only (no decimal text parse in front of it), TraceId/SpanId siblings agree; the generated __private_begin_span call passes like-named values at like-named parameters.",
+            "revert when a span ends). Not decided: id distinctness (rng), schedules beyond the per-poll bracket. Round 2: every wrapper and the type-erased Ctxt bridge forward open_disabled/open_push/... to the same-named method; an id's text is read by the hex decoder only (no decimal text parse in front of it), TraceId/SpanId siblings agree; the generated __private_begin_span call passes like-named values at like-named parameters. Round 4: the hex codec rules of C15 and the completion typestate of C05 also run here.",
             "custom MIR provenance rules (argument origins, constant keys vs field names, guarded calls, guard "
             "liveness incl. unwind)",
             "3/C04"),
@@ -79,7 +79,7 @@ CLAIMS = {
             "exactly those paths), replaced only by the receiver, each flag has one writer; a retry re-submits the "
             "processor's remainder with the same watchers; Sender/Receiver are generic over T: Channel only, Receiver is "
             "not Clone and is consumed by exec, nothing is spawned; no unaccounted panic-capable site in channel code "
-            "outside catch_unwind. The linearisation over all interleavings is a paper step from these premises.",
+            "outside catch_unwind. The linearisation over all interleavings is a paper step from these premises. Round 4: Retry::next is exactly current+1 (or saturating) compared <= max.",
             "custom MIR rules: lock/critical-section counting, guard provenance of field reads, who-may-write table, "
             "predicate (bound) inspection, panic-site inventory",
             "3/C06"),
@@ -90,7 +90,7 @@ CLAIMS = {
             "a retried remainder; only the receiver replaces the pending batch or its watchers; blocking/async flush "
             "wait on the notifier their callback triggers and return its result; end to end: the file worker returns Ok "
             "only after flush+sync_all, the OTLP transport only when no request is left, every OTLP signal sender is "
-            "flushed and a failed one fails the flush, wrappers forward. Not decided: timeouts, receiver scheduling. Round 2: flush/empty watchers are fired only by the receiver on the batch it took, never by a sender on the pending batch.",
+            "flushed and a failed one fails the flush, wrappers forward. Not decided: timeouts, receiver scheduling. Round 2: flush/empty watchers are fired only by the receiver on the batch it took, never by a sender on the pending batch. Round 4: every configured OTLP signal is flushed on every path that reports success.",
             "custom MIR rules: path-condition truth tables, natural-loop membership and must-pass-through, provenance",
             "3/C07"),
     "C08": ("Decides on built MIR: the processor runs only inside catch_unwind and its future is polled only through "
@@ -100,7 +100,7 @@ CLAIMS = {
             "sender or receiver closes the channel under the lock; exec returns only on the empty arm with the channel "
             "closed, decided inside the one critical section; tokio blocking entry points never call block_on and call "
             "block_in_place only under a runtime-flavour check (fixed defect); send_or_wait waits the remaining time; "
-            "panic-site inventory of channel code outside catch_unwind. Not decided: bounded time, OS scheduling. Round 2: the wait callback handed to send_or_wait captures nothing derived from the caller's total timeout and waits for its own (remaining-time) parameter. Thorough tier repeats the channel rules on the build without tokio.",
+            "panic-site inventory of channel code outside catch_unwind. Not decided: bounded time, OS scheduling. Round 2: the wait callback handed to send_or_wait captures nothing derived from the caller's total timeout and waits for its own (remaining-time) parameter. Thorough tier repeats the channel rules on the build without tokio. Round 4: Duration/SystemTime/Instant operators outside a reasoned table are reported (they panic on overflow).",
             "custom MIR rules: containment (who-may-call), loop back-edge control dependence, guard liveness, effect names",
             "3/C08"),
     "C09": ("Decides on built MIR: send tests len >= max_capacity under the lock, clears on the full edge, counts the "
@@ -143,7 +143,7 @@ CLAIMS = {
             "?-checked and whose stream impl makes text/bool/null errors; the logs encoder has no declining path; "
             "is_span_filter/is_metric_filter build KindFilter(Span/Metric), KindFilter::matches compares "
             "pull::<Kind>(\"evt_kind\") with its own kind; FromValue for Kind = downcast then Value::parse; the kind's "
-            "text constants agree between Display and FromStr. Not decided: which sval calls a runtime value produces. Round 2: the metrics encoder declines only for a non-metric kind or a missing/unusable metric_value, never because another property (metric_agg) is absent.",
+            "text constants agree between Display and FromStr. Not decided: which sval calls a runtime value produces. Round 2: the metrics encoder declines only for a non-metric kind or a missing/unusable metric_value, never because another property (metric_agg) is absent. Round 4: the traces encoder declines only on the kind filter or a missing/point extent; the OTLP send loop rules of C12 run here too.",
             "custom MIR rules: path enumeration with per-path counting and provenance, guard edges, error-discipline "
             "(ignored Result) check, sibling-impl agreement",
             "3/C14"),
@@ -156,7 +156,7 @@ CLAIMS = {
             "sort order of the listing, the end current_file_name() reads and the end retention removes are consistent; "
             "file_name() formats prefix, period, id, ext in that order and read_file_name_ts() reads part 1 of split('.'); "
             "new files are named from the period of this batch's clock reading; only entries matching prefix and extension "
-            "enter the listing. Every numeric component of a name is written zero-padded to a fixed width, coarse to fine (format templates decoded from the constant the compiler emits). Not claimed: prefix-extending sibling sets, calendar arithmetic. Round 2: the set directory returned for a template is tested for emptiness and replaced (fixed defect: bare file names); retention is a loop that deletes while len >= bound, bound = max_files.saturating_sub(1); the name's counter is the whole time elapsed since the start of the current day/hour/minute (exact field sets per arm) of the batch's one clock reading, which also gives the period; an opened file's period is parsed from the name of the very path that was opened.",
+            "enter the listing. Every numeric component of a name is written zero-padded to a fixed width, coarse to fine (format templates decoded from the constant the compiler emits). Not claimed: prefix-extending sibling sets, calendar arithmetic. Round 2: the set directory returned for a template is tested for emptiness and replaced (fixed defect: bare file names); retention is a loop that deletes while len >= bound, bound = max_files.saturating_sub(1); the name's counter is the whole time elapsed since the start of the current day/hour/minute (exact field sets per arm) of the batch's one clock reading, which also gives the period; an opened file's period is parsed from the name of the very path that was opened. Round 4: the Channel impl rules (clear() zeroes every counter it assigns) run here too.",
             "custom MIR rules: truth table of a closure predicate, feasible-path must-pass-through, who-may-call, "
             "provenance of deleted paths, sibling agreement (sort/first/pop), format-argument order",
             "3/C11"),
@@ -170,7 +170,7 @@ CLAIMS = {
             "prost schema with that tag and lowerCamelCase JSON name, LABEL/INDEX stems agree (one fixed defect: "
             "asInt/asDouble); (R4) well-known keys are lifted to their fields and not re-emitted under their own key; (R5) "
             "the file writer's fields are begin/end balanced. Not decided: structure preservation, 128-bit/non-finite "
-            "rendering, JSON well-formedness (sval_json/sval_protobuf/value-bag). Round 2: the terminal sparkline index is discharged by shape (normalise-then-scale with the division first, K = len-1) instead of an allow row; only identifier-literal labels may carry sval's no-escaping tag (computed property keys are escaped); argument agreement sees through trait-method calls (start/end time of metric points).",
+            "rendering, JSON well-formedness (sval_json/sval_protobuf/value-bag). Round 2: the terminal sparkline index is discharged by shape (normalise-then-scale with the division first, K = len-1) instead of an allow row; only identifier-literal labels may carry sval's no-escaping tag (computed property keys are escaped); argument agreement sees through trait-method calls (start/end time of metric points). Round 4: where a sink enumerates properties into an open sval structure and stops on a stream error, the enclosing function must not close the structure as if complete (found D19, fixed; the OTLP attribute streamer is known finding D20); integer metric points are combined with checked arithmetic only.",
             "call-graph reachability + panic-site inventory on MIR, guard liveness, provenance of for_each receivers, "
             "declarative-table cross-check (sval attributes vs prost-generated schema)",
             "3/C13"),
@@ -186,7 +186,7 @@ CLAIMS = {
             "outside seg(::seg)* (fixed defect); (R4) traceparent offsets (55; 2,35,52; 0..2,3..35,36..52,53..55) and RFC 3339 "
             "separator offsets with ?-checked fields; FromValue casts are downcast-then-text-parse. NOT decided (and one "
             "seeded change in to_parts is missed for that reason): format/parse identity of timestamps, calendar "
-            "conversion, lexicographic order, acceptance of every well-formed level text. Round 2: the path automaton has '_' as its own class and its lower bound is Rust identifiers (fixed defect: a::_1 rejected); hex ids are never decimal-parsed from text.",
+            "conversion, lexicographic order, acceptance of every well-formed level text. Round 2: the path automaton has '_' as its own class and its lower bound is Rust identifiers (fixed defect: a::_1 rejected); hex ids are never decimal-parsed from text. Round 4: no Result produced inside the parser regions is discarded (text buffering included); a Path is built from runtime text only on the accepting edge of is_valid_path (who-may-call rule for the *_raw constructors); a leap-year computation without century terms is reachable only for years below 2100 (guard constant).",
             "panic-site inventory with interval-lite abstract interpretation on MIR, constant-table evaluation by the "
             "compiler, finite-automaton extraction by abstract interpretation, layout-constant agreement",
             "3/C15"),
@@ -200,7 +200,7 @@ CLAIMS = {
             "to_owned rebuild Text as Text and Hole as Hole with every field taken from the same field of the source (label, "
             "formatter); TemplateKind::parts covers every variant; Template::to_owned goes through Part::to_owned. Not decided: "
             "that eq is an equivalence insensitive to fragment splitting (a value-level defect for an empty fragment next to a "
-            "hole is known and out of reach). Round 2: each cursor of eq indexes only the sequence whose length bounds it (contradiction rule); #[emit::fmt] flags reach the generated format string verbatim; generated __private_format/emit calls agree with the hooks' parameters.",
+            "hole is known and out of reach). Round 2: each cursor of eq indexes only the sequence whose length bounds it (contradiction rule); #[emit::fmt] flags reach the generated format string verbatim; generated __private_format/emit calls agree with the hooks' parameters. Round 4: every return of Render::write goes through the loop over the parts and the writer is handed to nothing but Part::write; the macro's template visitor copies each text fragment unchanged into the literal and the generated Part::text.",
             "custom MIR rules: panic-site inventory with interval-lite discharges, guard-edge conditions, aggregate field "
             "provenance, forwarding",
             "3/C16"),
@@ -214,7 +214,7 @@ CLAIMS = {
             "definition of `node`), cannot reach another search from the not-found edge (break, not continue), and returns "
             "Option<&MinLevelFilter>::matches(evt) over the event's module; registration overwrites exactly the final node; "
             "Path::segments splits on \"::\"; FromValue for Level is downcast-then-Value::parse. Not decided: the lenient "
-            "level parser's language.",
+            "level parser's language. Round 4: FromIterator for the path map registers each pair once through min_level in input order (no sorting, de-duplication or dropping in between).",
             "custom MIR rules: call-chain provenance, dominance-sensitive definitions, who-may-mutate, sibling comparator "
             "agreement, ADT declaration order",
             "3/C17"),
@@ -243,7 +243,7 @@ CLAIMS = {
             "matches/blocking_flush are constant true, now() is None; Setup::try_init_slot assembles the runtime from its own "
             "five fields, ?-checks init, and reads slot.get() for the Init handle only after (on the success edge of) init; "
             "init_slot = try_init_slot(..).expect(..); is_enabled = get().is_some(); the unsafe Send/Sync impls are conditional. "
-            "The behaviour under all interleavings then rests on the OnceLock contract (trusted). Round 2: every runtime assembled in emit::setup (chain from Runtime::new() or Runtime::build) carries all five components from the like-named fields; the crate-level accessors and blocking_flush are straight-line reads of runtime::shared() (flush true before init). Thorough tier: the no_std slot is constant-empty and never enabled.",
+            "The behaviour under all interleavings then rests on the OnceLock contract (trusted). Round 2: every runtime assembled in emit::setup (chain from Runtime::new() or Runtime::build) carries all five components from the like-named fields; the crate-level accessors and blocking_flush are straight-line reads of runtime::shared() (flush true before init). Thorough tier: the no_std slot is constant-empty and never enabled. Round 4: the installed Runtime passes its own components, runs its own pipeline and forwards blocking_flush unconditionally (rules shared with C01).",
             "custom MIR rules: API-usage whitelist on a type, error discipline, dominance on ?-success edges, aggregate "
             "provenance, ADT interior-mutability scan, impl predicates",
             "3/C20"),
@@ -256,7 +256,7 @@ CLAIMS = {
             "reaches no visitor call); Value and OwnedValue forward sval/serde/Debug/Display to the wrapped bag; buffering "
             "into the thread-local ambient context only downcasts (TraceId/SpanId) or to_shared()s and never calls a "
             "parse/format/cast function; owned/shared copies are the bag's. NOT decided (the larger part of the property): "
-            "what consumers observe through value-bag / sval / serde bridging. Round 2: the attribute -> hook table of the proc-macro crate selects, for each #[emit::as_*], the inspecting and anonymous capture hook of its own mode (read off quote! templates); lookup in macro-built props skips None entries.",
+            "what consumers observe through value-bag / sval / serde bridging. Round 2: the attribute -> hook table of the proc-macro crate selects, for each #[emit::as_*], the inspecting and anonymous capture hook of its own mode (read off quote! templates); lookup in macro-built props skips None entries. Round 4: every field of a macro argument struct is the argument's value, never a presence test; impl ToValue for dyn Error/Debug/Display uses the bag constructor of its own trait.",
             "custom MIR rules: resolved-callee mode tables (writer/reader agreement across three layers), loop-edge "
             "reachability, forbidden-call whitelist",
             "3/C19"),
